@@ -12,6 +12,10 @@ Mags == {999, 1000, 1001, 9999, 10000, 12345, 99999, 100000, 100001, 649020, 999
 Large == UNION {{1000 * m, 1000 * m + 5, 1000 * m + 995, 1000 * m + 4, -(1000 * m + 5)} : m \in Mags}
 Values == Small \cup Large
 Loss == 5006       \* a loss of 5.006 in the same tax year
+CostPounds == 5000000   \* allowable cost of each disposal, in whole pounds (keeps proceeds positive for every value)
+FeeK == 100             \* sale fees of 0.10: gross proceeds = net proceeds + 0.10
+ExemptK == 3000000      \* annual exempt amount 3,000.00
+HoldK(k) == LET a == FAbs(k) IN (a - 100000 * (a \div 100000)) + 8000
 
 Laws == \A k \in Values : RoundLaw(k)
 ASSUME Laws
@@ -20,7 +24,15 @@ Emit ==
   \A k \in Values :
     PrintT(<<"FMT", ToJson([k |-> k, pence |-> RoundPence(k), gbp |-> Gbp(k), gbp_abs |-> Gbp(FAbs(k)),
                             net_k |-> k - Loss, net_pence |-> RoundPence(k - Loss), net_gbp |-> Gbp(k - Loss),
-                            loss_gbp |-> Gbp(IF k < 0 THEN Loss - k ELSE Loss), gain_gbp |-> Gbp(IF k > 0 THEN k ELSE 0)])>>)
+                            loss_gbp |-> Gbp(IF k < 0 THEN Loss - k ELSE Loss), gain_gbp |-> Gbp(IF k > 0 THEN k ELSE 0),
+                            \* the other cells of the year's summary row and of the first disposal's details
+                            proceeds_gbp |-> GbpBig(2 * CostPounds, k - Loss + 2 * FeeK),
+                            exempt_gbp |-> Gbp(ExemptK),
+                            taxable_gbp |-> Gbp(IF k - Loss - ExemptK > 0 THEN k - Loss - ExemptK ELSE 0),
+                            d1_gross_gbp |-> GbpBig(CostPounds, k + FeeK), d1_net_gbp |-> GbpBig(CostPounds, k),
+                            fee_gbp |-> Gbp(FeeK), cost_gbp |-> GbpBig(CostPounds, 0),
+                            \* a holding of 8 shares whose total cost is HoldK(k): average cost per share
+                            hold_k |-> HoldK(k), hold_avg_gbp |-> GbpRatio(HoldK(k), 8)])>>)
 ASSUME Emit
 Labels ==
   \A Y \in 1900..2100 : PrintT(<<"LBL", ToJson([year |-> Y, label |-> TaxYearLabel(Y), date |-> DateUk(Y, 4, 5)])>>)
